@@ -93,15 +93,17 @@ Plan = List[Tuple[Ratio, Path, Exponent]]
 
 @functools.lru_cache(maxsize=None)
 def _plan_conversion(start: Unit, end: Unit) -> Plan:
+    # the target's prefix is divided out last, after any offsets have been applied
     unprefixed = end.quantify()
-    plan: RoughPlan = [(1 / unprefixed.magnitude, One, One, 1)]
+    prefix_plan: RoughPlan = [(1 / unprefixed.magnitude, One, One, 1)]
+    plan: RoughPlan = []
 
     start_factors = _splat(start)
     end_factors = _splat(end)
 
     direct_path = _find_path(start, end)
     if direct_path:
-        return _inline_paths(plan) + [(1, direct_path, 1)]
+        return [(1, direct_path, 1)] + _inline_paths(prefix_plan)
 
     plan += [
         (ratio, end, start, exponent)
@@ -124,7 +126,7 @@ def _plan_conversion(start: Unit, end: Unit) -> Plan:
     if start_factors or end_factors:
         raise ConversionNotFound(f"No conversion from {start} to {end}")
 
-    return _inline_paths(plan)
+    return _inline_paths(plan + prefix_plan)
 
 
 def _inline_paths(plan: List[Tuple[Ratio, Unit, Unit, Exponent]]) -> Plan:
